@@ -292,4 +292,6 @@ RULES = [
     ("C15.R5", "block results aggregated in block order for any thread count", r5),
     ("C15.R6", "reordering permutes from a storage-disjoint snapshot; sub-results written back completely", r6),
 ]
-FLOORS = {"C15.R1": 6, "C15.R2": 9, "C15.R3": 6, "C15.R4": 38, "C15.R5": 5, "C15.R6": 3}
+# instance floors: about 60% of the instances confirmed by hand on the reference tree -- a rule that suddenly matches far fewer
+# sites fails the run (exit 2); a clean-up that merges two sites into one does not
+FLOORS = {"C15.R1": 3, "C15.R2": 5, "C15.R3": 3, "C15.R4": 22, "C15.R5": 3, "C15.R6": 1}
